@@ -435,6 +435,9 @@ def run_catalogue(shard, res, rng):
         run_catalogue_case(kind, name, params, doms, res, rng)
 
 
+_ALIVE_OPS = []
+
+
 def run_catalogue_case(kind, name, params, doms, res, rng):
     from funsor import ops
     from funsor.domains import find_domain
@@ -467,6 +470,17 @@ def run_catalogue_case(kind, name, params, doms, res, rng):
     fdoms = [to_domain(d) for d in doms]
     case = (kind, name, params, tuple(doms))
     key = digest(case)
+    # parametrised ops stay alive for the whole catalogue (an op built with parameters p must carry p, also while instances with
+    # other parameters exist: typing and evaluation both read the parameters from the instance)
+    _ALIVE_OPS.append(op)
+    if p and hasattr(op, "defaults"):
+        res.count("catalogue:op-parameter-checks")
+        for k, v in p.items():
+            if k in op.defaults and k in ("axis", "keepdims", "offset", "dim", "equation"):  # `index` is normalised by GetsliceOp
+                have = op.defaults[k]
+                same_v = (tuple(have) == tuple(v)) if isinstance(v, (tuple, list)) and isinstance(have, (tuple, list)) else (have == v and type(have) is type(v) or have is v)
+                if not same_v:
+                    res.violation("type:op-parameters", "%s built with %s=%r carries %s=%r" % (type(op).__name__, k, v, k, have), case=case)
     try:
         declared = find_domain(op, tuple(fdoms)) if kind == "fin" else find_domain(op, *fdoms)
         declared = dom_of(declared)
